@@ -20,7 +20,8 @@ FAMILIES = {
     "C17": dict(cfgs=[("MC_ClientLib_C17.cfg", 8, 9), ("MC_ClientLib_C17x.cfg", 8, 8, "all")], devs=["NoDupPublish", "PubrelDropped", "NilOnTerminate"],
                 devsigs=["C17/retransmit-no-dup", "C17/pubrel-unanswered", "C17/publish-result-vs-ack"],
                 devmax=7, quick_sample=900, sim=(60, 30)),
-    "C27": dict(cfgs=[("MC_ClientLib_C27.cfg", 7, 8), ("MC_ClientLib_C27u.cfg", 9, 10, "all")], devs=[], quick_sample=250, sim=(60, 30),
+    "C27": dict(cfgs=[("MC_ClientLib_C27.cfg", 7, 8), ("MC_ClientLib_C27u.cfg", 10, 11, "all"),
+                      ("MC_ClientLib_C27q.cfg", 13, 15, "all")], devs=[], quick_sample=150, sim=(60, 30),
                 repeat=1, repeat_thorough=3, vectors=True),
     "C28": dict(cfgs=[("MC_ClientLib_C28.cfg", 5, 6), ("MC_ClientLib_C28ka.cfg", 5, 6)], devs=["KaSync", "NilOnTerminate"],
                 devsigs=["C28/goroutines-after-end"],
@@ -466,6 +467,12 @@ def run(prop, tier, replay=None):
     rc, n_new, n_known = vlib.verdict(prop, mine)
     vlib.write_evidence(prop, tier, "model_checking", coverage_of(R, prop), time.time() - t0, violations=n_new + n_known,
                         assumptions=ASSUMPTIONS)
+    panics = [v for v in R["violations"] if v["sig"].startswith("C25/client-panic/")]
+    if rc == 0 and panics:
+        print("INCONCLUSIVE property=%s: the client panicked in %d schedule(s) (a C25 finding: %s); their traces could not be judged"
+              % (prop, len(panics), panics[0]["sig"]))
+        vlib.replay_path(prop + "-panic", 1, panics[0]["replay"])
+        return 2
     if rc == 0 and R["gaps"]:
         g = R["gaps"][0]
         print("INCONCLUSIVE property=%s: %d model gap(s), first: %s %s" % (prop, len(R["gaps"]), g["sig"], g["what"]))
@@ -480,6 +487,9 @@ def panic_site(output):
     for t, m in fns:
         if t.endswith("ransaction"):
             return "%s.%s" % (t, m)
+    plain = re.findall(r"bisquitt/client\.(\w+)\(", output)
+    if plain:
+        return plain[0]
     return "%s.%s" % fns[0] if fns else "unknown"
 
 
@@ -531,6 +541,38 @@ def run_races(binary):
     return viols, len(scs), len(lines)
 
 
+def match_vector_scenarios():
+    """The exhaustive (filter, name) vectors of MC_ClientLibMatch as client schedules (one per filter:
+    Subscribe + SUBACK, then REGISTER + PUBLISH for every name of <= 3 levels: among them names that are a
+    proper level-prefix of the filter, names longer than the filter, empty levels)."""
+    res = vlib.tlc("MC_ClientLibMatch", "MC_ClientLibMatch.cfg", workers=1, timeout=300)
+    if not vlib.tlc_ok(res):
+        raise vlib.Inconclusive("matching cross-check failed on the specification:\n" + res["out"][-2000:])
+    vecs = json.loads(vlib.tlc_printed(res, "VECS:")[-1])
+    stat = json.loads(vlib.tlc_printed(res, "VECSTAT:")[-1])
+    return match_scenarios(vecs, dict(cid="vc", rd=2, rc=1, ct=3, ka=0, predef=[])), stat
+
+
+def run_crash_only(binary, scs, tag):
+    """Execute schedules and judge only a death of the process (C25)."""
+    outs = vlib.pmap(lambda ip: run_batch(binary, ip[1], "%s-%d" % (tag, ip[0])), list(enumerate(vlib.chunks(scs, 8))))
+    viols, nlines = [], 0
+    for lines, crashes in outs:
+        nlines += len(lines)
+        for c in crashes:
+            sc = c["scenario"]
+            if not c["panic"]:
+                raise vlib.Inconclusive("driver died without panic in %s:\n%s" % (sc["id"], c["output"][-1500:]))
+            m = re.search(r"panic: ([^\n]*)", c["output"])
+            evs = sc["events"]
+            ev = evs[c["event"]] if 0 <= c["event"] < len(evs) else {"e": "epilogue"}
+            what = ev.get("api") or (ev.get("p") or {}).get("t") or ev["e"]
+            viols.append(dict(sig="C25/client-panic/%s/%s" % (what, panic_site(c["output"])),
+                              what="client panics in schedule %s at event %d: %s" % (sc["id"], c["event"], m.group(1) if m else ""),
+                              replay=dict(scenario={k: x for k, x in sc.items() if k != "expect"}, event=c["event"], output=c["output"])))
+    return viols, len(scs), nlines
+
+
 def run_client_half(prop, tier):
     """Client-library half of a property owned by another family.
     Returns (violations, coverage_dict).  For C25 only deaths of the process (panics in the code under
@@ -541,6 +583,11 @@ def run_client_half(prop, tier):
         raise vlib.Inconclusive("clientlib has no client half for %s" % prop)
     viols, cov = [], None
     races = None
+    vecrun = None
+    if prop == "C25":
+        ms, stat = match_vector_scenarios()
+        vecrun = run_crash_only(vlib.build_driver("cldrv"), ms, "vec")
+        viols += vecrun[0]
     if prop in ("C25", "C18"):
         races = run_races(vlib.build_driver("cldrv"))
         for v in races[0]:
@@ -562,6 +609,9 @@ def run_client_half(prop, tier):
         c["desync_traces"] = len(R["gaps"])
         if races:
             c["gated_race_schedules"] = races[1]
+        if vecrun:
+            c["matching_vector_schedules_crash_only"] = vecrun[1]
+            c["matching_vector_trace_lines"] = vecrun[2]
         if cov is None:
             cov = c
         else:
